@@ -568,6 +568,12 @@ class Fn:
             src = src[1]
         if src[0] == 'agg' and str(src[1]).endswith('Option::Some') and src[2]:
             return src[2][0]
+        if src[0] == 'phi':
+            # a merge of None and Some(..) alternatives viewed `as Some`: only the Some alternatives can be meant
+            somes = [x for x in src[1] if not (x[0] == 'agg' and str(x[1]).endswith('Option::None'))]
+            if len(somes) == 1 and somes[0][0] == 'agg' and str(somes[0][1]).endswith('Option::Some') and somes[0][2]:
+                return somes[0][2][0]
+            return None
         if src[0] != 'call' or not src[2]:
             return None
         name = src[1]
